@@ -42,6 +42,18 @@ fn gen_scenario(rng: &mut vsim::rng::Rng) -> Scenario {
     let mut sc = gen_lifecycle(rng, &opts);
     if family {
         cancel_family(&mut sc, rng);
+    } else if rng.below(8) == 0 {
+        // another family fails every interrupt first (a seeded code): tasks are revived by their catches and wait in
+        // the catch steps - what the catch leaves on the revived task belongs to the stored image
+        let code = rng.pick(&["e1", "e2", "e3"]).to_string();
+        for list in sc.client.reactions.values_mut() {
+            if let Some(first) = list.first_mut() {
+                let mut o = first.options.clone();
+                o.insert("ecode".into(), json!(code));
+                o.insert("message".into(), json!("boom"));
+                *first = Reaction { action: "error".into(), options: o, repeat: 0 };
+            }
+        }
     }
     // writers: set / code acts on the names the workflow declares, env at start and from scripts
     let m = &mut sc.models[0];
